@@ -54,7 +54,8 @@ pub enum Cmd {
     If(List, List, Vec<(List, List)>, Option<List>),
     While(bool, List, List),
     For(u32, List),
-    Case(Vec<(bool, char, List)>),
+    /// items: (0 = no pattern matches, 1 = one matches, 2 = expanding the patterns fails; terminator; body)
+    Case(Vec<(u8, char, List)>),
     Def(&'static str, Box<Cmd>),
     /// simple command whose word expansion fails
     ExpErr,
@@ -160,7 +161,7 @@ fn sx_cmd(c: &Cmd) -> String {
         Cmd::Case(items) => {
             let v: Vec<String> = items
                 .iter()
-                .map(|(m, k, b)| format!("({} {k} {})", *m as u8, sx_list(b)))
+                .map(|(m, k, b)| format!("({m} {k} {})", sx_list(b)))
                 .collect();
             format!("(case {})", v.join(" "))
         }
@@ -337,7 +338,7 @@ fn to_cmd(x: &Sx) -> Option<Cmd> {
             for it in &v[1..] {
                 let Sx::List(it) = it else { return None };
                 items.push((
-                    num(it.first()?)? != 0,
+                    num(it.first()?)? as u8,
                     atom(it.get(1)?)?.chars().next()?,
                     to_list(it.get(2)?)?,
                 ));
@@ -698,10 +699,11 @@ impl Render {
                     if self.rng.chance(1, 2) {
                         self.out.push('(');
                     }
-                    self.out.push_str(if *m {
-                        *self.rng.pick(&["x", "y|x", "?", "[x]"])
-                    } else {
-                        *self.rng.pick(&["y", "xx", "y|z"])
+                    self.out.push_str(match *m {
+                        1 => *self.rng.pick(&["x", "y|x", "?", "[x]", "x|${unset_variable_u?}"]),
+                        // a failing expansion is reached before any pattern matches
+                        2 => *self.rng.pick(&["${unset_variable_u?}", "y|${unset_variable_u?}", "${unset_variable_u?}|x"]),
+                        _ => *self.rng.pick(&["y", "xx", "y|z"]),
                     });
                     self.out.push(')');
                     self.opt_nl();
@@ -1058,7 +1060,8 @@ impl Gen {
                 let mut items = vec![];
                 for _ in 0..self.rng.below(4) {
                     let body = if self.rng.chance(1, 5) { vec![] } else { self.list(d, 2) };
-                    items.push((self.rng.chance(1, 2), *self.rng.pick(&['b', 'b', 'f', 'c']), body));
+                    let m = if self.rng.chance(1, 8) { 2 } else { self.rng.below(2) as u8 };
+                    items.push((m, *self.rng.pick(&['b', 'b', 'f', 'c']), body));
                 }
                 Cmd::Case(items)
             }
